@@ -78,8 +78,8 @@ def gen_cases(tier, seed):
     # ---- fastslow
     for variant in ("onsite", "nn"):
         for trial in ("uhf", "ghf"):
-            for (l, ne) in ([("chain4", (2, 2)), ("grid2x2", (2, 1))] if q else
-                            [("chain4", (2, 2)), ("grid2x2", (2, 1)), ("chain3", (2, 1)), ("open4", (2, 2)), ("chain4", (3, 1))]):
+            for (l, ne) in ([("chain4", (2, 2)), ("open4", (2, 1)), ("open3", (1, 1))] if q else
+                            [("chain4", (2, 2)), ("grid2x2", (2, 1)), ("chain3", (2, 1)), ("open4", (2, 2)), ("chain4", (3, 1)), ("open3", (1, 1)), ("chain2", (1, 1))]):
                 for rep in range(2 if q else 8):
                     cases.append({
                         "type": "fastslow", "variant": variant, "trial": trial, "lattice": l, "nelec": list(ne),
